@@ -1,7 +1,7 @@
 """The twelve file-system property checks (C01-C11, C16).  Each: proof gate (coq/fs/Cxx.v),
 scenario generation with a property-specific profile, model-vs-implementation trace
 correspondence, and the property's own spec oracle run on the implementation's outputs."""
-import os, sys, collections
+import os, sys, collections, re, subprocess
 import vcommon as V
 import fscommon as F
 import fsoracle as O
@@ -506,7 +506,103 @@ def check_C03(run, replay=None):
             bad += report_oracle(run, env, sc, probs, "the medium is not a well-formed FAT volume after a call returned")
     common_tail(run, env, run.coverage.get("theorems", []), oracle=lambda sc: per_op_image_checks(run, env, sc, {"fsck"}),
                 what="the medium is not a well-formed FAT volume after a call returned")
+    small = [sc for sc in env.scripts if sc["meta"].get("N", 0) <= 6000]
+    coq_fsck(run, env, small if run.tier == "thorough" else small[:48], "the medium is not a well-formed FAT volume after a call returned")
     return finish(run, env, "C03", "histories incl. failing calls on all geometries, volumes with 0-3 free clusters, full FAT16 roots, multi-cluster directories; oracle = independent structural checker (gen/fatck.py fsck: chains in range/acyclic/terminated/disjoint/long enough, unique names, dot entries, nothing after the end marker) on the implementation's medium after every call that wrote")
+
+# ---- the extracted Coq decider of the global invariant (PrFsck.fs_inv_fast, sound by fs_inv_fast_sound) as an oracle
+def _pend_from_int(sc, dev):
+    """pending heads of the files still open at the end of the implementation's run: in-memory first cluster >= 2
+    while the slot on the medium still says < 2 (from the last INT line of the implementation and its final image)"""
+    last = None
+    for l in sc["impl"]:
+        if l.startswith("INT "):
+            last = l
+    if last is None:
+        return []
+    m = re.search(r"files=\[([^\]]*)\]", last)
+    pend = []
+    if m and m.group(1):
+        for f in m.group(1).split(";"):
+            a = f.split(":")
+            mem, blk, off = int(a[7]), int(a[9]), int(a[10])
+            raw = dev.get(blk, fatck.ZERO)
+            lo = raw[off + 26] | (raw[off + 27] << 8)
+            hi = raw[off + 20] | (raw[off + 21] << 8)
+            disk = lo | (hi << 16) if sc["meta"].get("fat32") else lo
+            if mem >= 2 and disk < 2:
+                pend.append(mem)
+    return pend
+
+def _coq_fsck_one(args):
+    model, sc, tmp = args
+    out = dict(name=sc["name"], model=None, impl=None)
+    try:
+        rc, txt = V.sh([model, "runfsck", sc["path"]], timeout=150)
+        out["model"] = [l.split()[2] for l in txt.splitlines() if l.startswith("FSCK ")]
+        dev = final_image(sc)
+        path = os.path.join(tmp, sc["name"] + ".final.img")
+        with open(path, "w") as fh:
+            for i in sorted(dev):
+                fh.write("%d %s\n" % (i, dev[i].hex()))
+        pend = _pend_from_int(sc, dev)
+        rc, txt = V.sh([model, "fsck", path, str(sc["meta"]["slot"])] + [str(x) for x in pend], timeout=150)
+        out["impl"] = txt.strip().split()[-1] if txt.strip() else "error"
+        os.remove(path)
+    except subprocess.TimeoutExpired:
+        out["timeout"] = True
+    except Exception as e:
+        out["error"] = repr(e)
+    return out
+
+def coq_fsck(run, env, scripts, what):
+    """runs the extracted decider (1) on the MODEL's state after every call of each script and (2) on the IMPLEMENTATION's
+    final medium (rebuilt from its write log) with the pending chains of its still-open files.  Scripts whose image is
+    rejected before the first call that writes are outside the scope of C03_history (counted, not judged)."""
+    from concurrent.futures import ThreadPoolExecutor
+    todo = [sc for sc in scripts if not sc["faults"] and sc.get("impl")]
+    with ThreadPoolExecutor(V.NPROC) as ex:
+        res = list(ex.map(_coq_fsck_one, [(env.model, sc, env.tmp) for sc in todo]))
+    stats = collections.Counter()
+    bad = 0
+    for sc, r in zip(todo, res):
+        if r.get("timeout"):
+            stats["decider_timeout"] += 1; continue
+        if r.get("error") or not r["model"]:
+            stats["decider_error"] += 1
+            run.notes.append("coq decider failed on %s: %s" % (sc["name"], r.get("error")))
+            continue
+        verdicts = r["model"]
+        # scope of C03_history: one volume, mounted once - judge the calls up to the first remount / closevol / second openvol
+        names = [o.split()[0] for o in sc["ops"]]
+        firstvol = next((i for i, nm in enumerate(names) if nm == "openvol"), None)
+        cut = next((i for i, nm in enumerate(names) if nm in ("remount", "closevol") or (nm == "openvol" and firstvol is not None and i > firstvol)), len(names))
+        whole = cut == len(names)
+        verdicts = verdicts[:cut]
+        first = next((v for v in verdicts if v in ("ok", "bad")), None)
+        if first is None or "multi" in verdicts:
+            stats["no_single_volume"] += 1; continue
+        if first == "bad":
+            stats["image_outside_fs_inv"] += 1; continue
+        stats["in_scope"] += 1
+        stats["model_states_decided"] += sum(1 for v in verdicts if v in ("ok", "bad"))
+        k = next((i for i, v in enumerate(verdicts) if v == "bad"), None)
+        if k is not None and bad < 2:
+            bad += 1
+            run.violation("%s: the extracted decider of fs_inv rejects the model's state after op %d (%s) although it accepted the state before - contradicts C03_history, or the script left its scope" % (what, k, sc["ops"][k] if k < len(sc["ops"]) else "?"),
+                          env.replay_text(sc, "coq decider verdicts per op: " + " ".join(verdicts)), no_input=False)
+        if not whole:
+            stats["impl_final_skipped_remount"] += 1
+        elif r["impl"] == "ok":
+            stats["impl_final_ok"] += 1
+        elif r["impl"] == "bad" and k is None and bad < 2:
+            bad += 1
+            run.violation("%s: the extracted decider of fs_inv rejects the IMPLEMENTATION's final medium (accepted for the model)" % what,
+                          env.replay_text(sc, "coq decider on the implementation's final medium: bad; on the model's states: " + " ".join(verdicts)))
+        else:
+            stats["impl_final_" + str(r["impl"])] += 1
+    run.coverage["coq_decider"] = dict(stats)
+    return bad
 
 def c04_known(sc):
     # D38 is recorded for exactly this input: the corpus image whose BPB claims 5097 blocks in a 97-block partition entry
@@ -613,6 +709,8 @@ def check_C05(run, replay=None):
         if out:
             bad += report_oracle(run, env, sc, out, "space accounting violated")
     common_tail(run, env, run.coverage.get("theorems", []))
+    small = [sc for sc in env.scripts if sc["meta"].get("N", 0) <= 6000]
+    coq_fsck(run, env, small if run.tier == "thorough" else small[:32], "space leaked or invented (in-use clusters differ from the chains of the tree and of open files)")
     return finish(run, env, "C05", "create/extend/truncate/delete/mkdir histories ending quiescent + fill/delete/refill cycles on volumes with 0-4 free clusters (FAT sectors exactly full and with slack); oracle = used-set == reachable-set on the implementation's final medium (independent checker) and bytes accepted per cycle == free clusters x cluster size, constant over cycles")
 
 # ============================================================================ C06
